@@ -461,6 +461,12 @@ pub fn parse_date_yymmdd(input: &str) -> Result<NaiveDate, ParseError> {
         });
     }
 
+    if !input.chars().all(|c| c.is_ascii_digit()) {
+        return Err(ParseError::InvalidFormat {
+            message: "Date must be in YYMMDD format (6 digits)".to_string(),
+        });
+    }
+
     let year = input[0..2]
         .parse::<u32>()
         .map_err(|_| ParseError::InvalidFormat {
@@ -496,6 +502,12 @@ pub fn parse_date_yyyymmdd(input: &str) -> Result<NaiveDate, ParseError> {
         });
     }
 
+    if !input.chars().all(|c| c.is_ascii_digit()) {
+        return Err(ParseError::InvalidFormat {
+            message: "Date must be in YYYYMMDD format (8 digits)".to_string(),
+        });
+    }
+
     let year = input[0..4]
         .parse::<i32>()
         .map_err(|_| ParseError::InvalidFormat {
@@ -525,6 +537,12 @@ pub fn parse_time_hhmm(input: &str) -> Result<NaiveTime, ParseError> {
                 "Time must be in HHMM format (4 digits), found {} characters",
                 input.len()
             ),
+        });
+    }
+
+    if !input.chars().all(|c| c.is_ascii_digit()) {
+        return Err(ParseError::InvalidFormat {
+            message: "Time must be in HHMM format (4 digits)".to_string(),
         });
     }
 
